@@ -452,6 +452,11 @@ func parseCondition(conditionName string, conditionDef *openfgav1.Condition, inc
 		return "", errors.ConditionNameDoesntMatchError(conditionName, conditionDef.GetName())
 	}
 
+	// the DSL grammar wants at least one parameter: 'condition c() {' is not accepted by its parser
+	if len(conditionDef.GetParameters()) == 0 {
+		return "", errors.ConditionWithoutParametersError(conditionName)
+	}
+
 	paramsString, err := parseConditionParams(conditionDef.GetParameters())
 	if err != nil {
 		return "", err
